@@ -545,17 +545,19 @@ pub struct ClientCfg {
     pub udp_lport: Option<u16>,
     /// a second TCP remote `127.0.0.1:<port>` -> TARGET (family L: several local connections pending at once)
     pub lport2: Option<u16>,
+    /// family M: the (first) local entry on `lport` is a SOCKS listener (`127.0.0.1:<lport>:socks`) instead of a TCP remote
+    pub socks: bool,
 }
 
-/// Spawn the real `client_main_inner` with one TCP remote `127.0.0.1:lport -> TARGET` (and, optionally, a second
-/// TCP remote and / or a UDP remote to the same target).
+/// Spawn the real `client_main_inner` with one TCP remote `127.0.0.1:lport -> TARGET` (family M: or one SOCKS listener
+/// on `127.0.0.1:lport`) and, optionally, a second TCP remote and / or a UDP remote to the same target.
 pub fn spawn_client(cfg: ClientCfg, sh: Arc<Shared>) -> tokio::task::JoinHandle<()> {
     let ClientCfg { sport, lport, .. } = cfg;
     let ms = |x: u64| OptionalDuration::from(Duration::from_millis(x));
     let args = ClientArgs {
         server: ServerUrl::from_str(&format!("{}://127.0.0.1:{sport}/ws", if cfg.wss { "wss" } else { "ws" })).expect("server url"),
         remote: {
-            let mut v = vec![Remote::from_str(&format!("127.0.0.1:{lport}:{TARGET_HOST}:{TARGET_PORT}")).expect("remote")];
+            let mut v = vec![if cfg.socks { Remote::from_str(&format!("127.0.0.1:{lport}:socks")).expect("socks remote") } else { Remote::from_str(&format!("127.0.0.1:{lport}:{TARGET_HOST}:{TARGET_PORT}")).expect("remote") }];
             if let Some(l2) = cfg.lport2 {
                 v.push(Remote::from_str(&format!("127.0.0.1:{l2}:{TARGET_HOST}:{TARGET_PORT}")).expect("second remote"));
             }
@@ -632,7 +634,10 @@ pub struct LocalConn {
 
 /// Open a local connection, send a token, wait for its echo. `startup` allows
 /// `ConnectionRefused` for a while (the client binds its listener asynchronously).
-pub fn open_local(lport: u16, origin: &'static str, idx: usize, listener_seen: Arc<AtomicBool>, sh: &Arc<Shared>) -> LocalConn {
+///
+/// `socks`: the local entry is a SOCKS listener: the connection first asks for TARGET with a SOCKS5 CONNECT in lock-step
+/// (greeting, method reply, request, reply) and needs a well-formed success reply before the token travels.
+pub fn open_local(lport: u16, socks: bool, origin: &'static str, idx: usize, listener_seen: Arc<AtomicBool>, sh: &Arc<Shared>) -> LocalConn {
     let token: Vec<u8> = format!("C19-token-{origin}-{idx}-{lport}-0123456789abcdef").into_bytes();
     let open_before_ms = sh.now_ms();
     let sh2 = sh.clone();
@@ -654,6 +659,13 @@ pub fn open_local(lport: u16, origin: &'static str, idx: usize, listener_seen: A
         };
         listener_seen.store(true, Ordering::SeqCst);
         let connected_ms = sh.now_ms();
+        if socks {
+            match socks5_connect(&mut s).await {
+                Ok(()) => {}
+                Err(SocksFail::Io(err)) => return LocalRes::Closed { connected_ms, closed_ms: sh.now_ms(), got: 0, err },
+                Err(SocksFail::Malformed(got_hex)) => return LocalRes::Corrupt { connected_ms, got_hex },
+            }
+        }
         if let Err(e) = s.write_all(&tok).await {
             return LocalRes::Closed { connected_ms, closed_ms: sh.now_ms(), got: 0, err: format!("write: {e}") };
         }
@@ -689,4 +701,170 @@ impl LocalConn {
             self.settle(1000).await;
         }
     }
+}
+
+// ---------------------------------------------------------------------------------------
+// family M: SOCKS5 on the local side, and the local client that goes away while its request waits
+// ---------------------------------------------------------------------------------------
+
+/// `05 01 00`: version 5, one method, NO AUTHENTICATION REQUIRED
+pub const SOCKS5_GREETING: [u8; 3] = [5, 1, 0];
+
+/// `05 01 00 01 <target ip> <target port>`: CONNECT to TARGET (IPv4)
+pub fn socks5_request() -> Vec<u8> {
+    let ip: std::net::Ipv4Addr = TARGET_HOST.parse().expect("TARGET_HOST is an IPv4 address");
+    let mut v = vec![5, 1, 0, 1];
+    v.extend_from_slice(&ip.octets());
+    v.extend_from_slice(&TARGET_PORT.to_be_bytes());
+    v
+}
+
+enum SocksFail {
+    /// the connection ended / failed, or the proxy refused (REP != 0): not served
+    Io(String),
+    /// bytes that are not a SOCKS5 answer
+    Malformed(String),
+}
+
+/// SOCKS5 CONNECT to TARGET in lock-step; `Ok` after a well-formed success reply (RFC 1928 section 6: VER 5, REP 0,
+/// RSV 0, ATYP 1 / 3 / 4 with an address of the matching length and a port) has been read completely.
+async fn socks5_connect(s: &mut TcpStream) -> Result<(), SocksFail> {
+    let io = |what: &str, e: std::io::Error| SocksFail::Io(format!("socks {what}: {}", if e.kind() == std::io::ErrorKind::UnexpectedEof { "eof".to_string() } else { e.to_string() }));
+    s.write_all(&SOCKS5_GREETING).await.map_err(|e| io("greeting", e))?;
+    let mut m = [0u8; 2];
+    s.read_exact(&mut m).await.map_err(|e| io("method reply", e))?;
+    if m != [5, 0] {
+        return Err(SocksFail::Malformed(format!("method reply {}", crate::report::hex(&m))));
+    }
+    s.write_all(&socks5_request()).await.map_err(|e| io("request", e))?;
+    let mut h = [0u8; 4];
+    s.read_exact(&mut h).await.map_err(|e| io("reply", e))?;
+    if h[0] != 5 || h[2] != 0 || !matches!(h[3], 1 | 3 | 4) {
+        return Err(SocksFail::Malformed(format!("reply {}", crate::report::hex(&h))));
+    }
+    if h[1] != 0 {
+        return Err(SocksFail::Io(format!("socks reply: REP={:#04x}", h[1])));
+    }
+    let alen = match h[3] {
+        1 => 4,
+        4 => 16,
+        _ => {
+            let mut l = [0u8; 1];
+            s.read_exact(&mut l).await.map_err(|e| io("reply address", e))?;
+            usize::from(l[0])
+        }
+    };
+    let mut rest = vec![0u8; alen + 2];
+    s.read_exact(&mut rest).await.map_err(|e| io("reply address", e))?;
+    Ok(())
+}
+
+/// How the local client of family M goes away while its stream request waits in the client.
+#[derive(Clone, Copy, Debug, PartialEq, Eq, Hash)]
+pub enum GoAway {
+    /// orderly close: everything that had arrived was read, then `close()` (FIN)
+    Fin,
+    /// abortive close: SO_LINGER 0, then `close()` (RST)
+    RstLinger,
+    /// `close()` while received data is unread (the SOCKS method reply): the kernel sends a RST instead of a FIN.
+    /// SOCKS entry only: a TCP remote sends nothing to the local client while the tunnel is down
+    RstUnread,
+}
+
+impl GoAway {
+    pub const ALL: [GoAway; 3] = [GoAway::Fin, GoAway::RstLinger, GoAway::RstUnread];
+    pub fn name(self) -> &'static str {
+        match self {
+            GoAway::Fin => "fin",
+            GoAway::RstLinger => "rst-linger0",
+            GoAway::RstUnread => "rst-unread-data",
+        }
+    }
+    pub fn parse(s: &str) -> Option<Self> {
+        Self::ALL.into_iter().find(|g| g.name() == s)
+    }
+}
+
+/// What the local client that goes away did (evidence; nothing is owed to it).
+#[derive(Clone, Debug, Default)]
+pub struct GoerLog {
+    pub open_before_ms: f64,
+    pub connected_ms: Option<f64>,
+    /// everything it had to say was written (SOCKS: greeting ++ CONNECT request in one write; TCP remote: a few octets)
+    pub sent_ms: Option<f64>,
+    /// SOCKS: the method reply (`05 00`) had arrived -- read, or (rst-unread-data) seen and left unread -- i.e. the
+    /// client's SOCKS handler had the connection and was past the greeting when the local client went away
+    pub method_reply: Option<String>,
+    /// taken after `close()` returned
+    pub gone_ms: Option<f64>,
+    pub err: Option<String>,
+}
+
+/// The local client A of family M: connects to the local entry, says what it has to say at once (SOCKS: greeting and
+/// CONNECT request in ONE write without waiting for the method reply; TCP remote: a few octets of payload), waits
+/// until the client's handler can be taken to have its stream request under way (SOCKS: the method reply has arrived;
+/// then a moment more), and goes away in the given way.  It never waits for the tunnel.
+pub async fn run_goer(lport: u16, socks: bool, how: GoAway, listener_seen: Arc<AtomicBool>, sh: Arc<Shared>) -> GoerLog {
+    let mut g = GoerLog { open_before_ms: sh.now_ms(), ..Default::default() };
+    let started = Instant::now();
+    let mut s = loop {
+        match TcpStream::connect(("127.0.0.1", lport)).await {
+            Ok(s) => break s,
+            Err(e) if e.kind() == std::io::ErrorKind::ConnectionRefused && !listener_seen.load(Ordering::SeqCst) && started.elapsed() < Duration::from_secs(20) => {
+                tokio::time::sleep(Duration::from_millis(10)).await;
+            }
+            Err(e) => {
+                g.err = Some(format!("connect: {e}"));
+                return g;
+            }
+        }
+    };
+    listener_seen.store(true, Ordering::SeqCst);
+    g.connected_ms = Some(sh.now_ms());
+    let hello: Vec<u8> = if socks {
+        let mut v = SOCKS5_GREETING.to_vec();
+        v.extend_from_slice(&socks5_request());
+        v
+    } else {
+        b"C19-going-away".to_vec()
+    };
+    match s.write_all(&hello).await {
+        Ok(()) => g.sent_ms = Some(sh.now_ms()),
+        Err(e) => g.err = Some(format!("write: {e}")),
+    }
+    if socks && g.err.is_none() {
+        // the method reply: read (so that nothing is unread at the close), or only waited for and left in the socket
+        let mut m = [0u8; 2];
+        let r = tokio::time::timeout(Duration::from_secs(20), async {
+            if how == GoAway::RstUnread {
+                loop {
+                    match s.peek(&mut m).await {
+                        Ok(2) => break Ok(()),
+                        Ok(0) => break Err("eof".to_string()),
+                        Ok(_) => tokio::time::sleep(Duration::from_millis(2)).await,
+                        Err(e) => break Err(e.to_string()),
+                    }
+                }
+            } else {
+                s.read_exact(&mut m).await.map(|_| ()).map_err(|e| e.to_string())
+            }
+        })
+        .await;
+        match r {
+            Ok(Ok(())) => g.method_reply = Some(crate::report::hex(&m)),
+            Ok(Err(e)) => g.err = Some(format!("method reply: {e}")),
+            Err(_) => g.err = Some("method reply: none within 20 s".into()),
+        }
+    }
+    // (the handler takes the request out of its buffer and asks the main loop for a stream: microseconds)
+    tokio::time::sleep(Duration::from_millis(40)).await;
+    if how == GoAway::RstLinger {
+        #[allow(deprecated)]
+        if let Err(e) = s.set_linger(Some(Duration::ZERO)) {
+            g.err = Some(format!("SO_LINGER: {e}"));
+        }
+    }
+    drop(s);
+    g.gone_ms = Some(sh.now_ms());
+    g
 }
